@@ -298,6 +298,10 @@ class FdToken:
     def __repr__(self):
         return 'FD#%d' % self.idx
 
+    def __bool__(self):
+        # descriptor 0 is a descriptor: every other token is falsy, like the integer 0
+        return self.idx % 2 == 1
+
 
 def normalise(ct, v):
     """The statement's normalisation of an input value: tuples read back as lists, byte arrays
